@@ -208,7 +208,7 @@ class C29(Prop):
         length 1-4 near its start, its middle and its far end: collinear (inside / overhanging the
         end), crossing through a lattice point of the long one, or ending on it; both index
         orders.  All true vertices are lattice points (den = 1 in the oracle)."""
-        k = rng.randint(16, 22)
+        k = rng.choice([16, 18, 19, 20, 21, 22, 22])
         L = 2 ** k
         d = rng.choice([(1, 0), (0, 1), (1, 1), (1, -1), (2, 1), (1, 2), (-1, 0), (0, -1)])
         A = (rng.randint(-3, 3), rng.randint(-3, 3))
@@ -217,7 +217,7 @@ class C29(Prop):
         zones = [rng.randint(1, 8), L // 2 + rng.randint(-8, 8), L - rng.randint(1, 8)]
         rng.shuffle(zones)
         for m in zones[:rng.randint(1, 3)]:
-            kind = rng.choice(["col", "col", "col", "cross", "tee"])
+            kind = rng.choice(["col", "col", "col", "col", "cross", "tee"])
             if kind == "col":
                 ln = rng.randint(1, 4)
                 lo = m if rng.random() < 0.7 else m - ln
@@ -231,10 +231,11 @@ class C29(Prop):
                 P = pt(m)
                 a = [P[0] - v[0], P[1] - v[1]] if kind == "cross" else P
                 segs.append([a, [P[0] + v[0], P[1] + v[1]]])
-        if rng.random() < 0.5:
+        r = rng.random()
+        if r < 0.3:
             segs = segs[1:] + segs[:1]          # the long one last: it is the "other" of every pair
-        else:
-            rng.shuffle(segs)
+        elif r < 0.6:
+            rng.shuffle(segs)                   # (else: the long one first, the "main" of every pair)
         ntag = rng.choice([0, 1])
         return {"segs": [[s[0], s[1], [rng.randint(0, 9) for _ in range(ntag)]] for s in segs],
                 "share": rng.random() < 0.5, "float": rng.random() < 0.5, "den": 1}
